@@ -56,6 +56,7 @@ partial def exprOfJson (j : Json) : Expr :=
   match j with
   | .obj _ =>
     if let .ok v := j.getObjVal? "lit" then .lit (valOfJsonO v)
+    else if let .ok v := j.getObjVal? "ctxkey" then .ctxKey (jstr v) (jstr (jget j "k"))
     else if let .ok v := j.getObjVal? "ctx" then .ctx (jstr v)
     else if let .ok v := j.getObjVal? "fn" then
       match jstr v with
